@@ -42,6 +42,8 @@ type Fact struct {
 	B   bool    `json:"b"`
 	T   time.Time `json:"t"`
 	P   *Sub    `json:"p,omitempty"`
+	P2  *Sub    `json:"p2,omitempty"` // spare object: rules only ever use it as the source of `X.P = X.P2`
+	PN  *int64  `json:"pn,omitempty"` // pointer to a number: written THROUGH the pointer, never re-pointed
 	A   []int64 `json:"a"`
 	AS  []string `json:"as"`
 	AF  []float32 `json:"af"`
